@@ -21,8 +21,9 @@ SPEC = {
         'traversal to remap. Not decided: traversal order, path bookkeeping, visit semantics, equality with the recursive '
         'rebuild for all shapes.'
         " T9.visit: every item appended to the new parent went through visit (or visit is the identity default). T20.order: default_enter's item iterator is not re-ordered."
-        ' T9.seg: the first lookup of a get_path step uses the segment exactly as given.'),
-    'decided': ['segment looked up as given', 'visit on every appended item', 'item order not re-sorted', 'T8 input not mutated', 'T20 fresh same-class parents, exit never returns the old parent', 'T2 registry updated on enter and after exit'],
+        ' T9.seg: the first lookup of a get_path step uses the segment exactly as given.'
+        ' T20.rebuild: an immutable parent is rebuilt as new_parent.__class__(values). T14.default for get_path.'),
+    'decided': ['immutable parent rebuilt', 'segment looked up as given', 'visit on every appended item', 'item order not re-sorted', 'T8 input not mutated', 'T20 fresh same-class parents, exit never returns the old parent', 'T2 registry updated on enter and after exit'],
     'declined': ['traversal order and path bookkeeping', 'visit semantics', 'output == recursive rebuild for every shape'],
     'trusted_base': [], 'assumptions': ['user callbacks follow the documented protocol'], 'exhaustive': True,
 }
